@@ -150,6 +150,50 @@ def run_e2e(ctx, n, tag):
     return failures
 
 
+def samename_case(rng, k):
+    """an inheritance chain that passes through two classes of ONE short name in different namespaces; the control gives the
+    second class another name. Returns (text, control text, the other name)"""
+    depth = rng.randint(1, 2)
+    lines = ["module Cq%da" % k, "  class Root%d" % k, "    def lbl%d" % k, "      %s" % rng.choice(["1", "'s'", ":a"]), "    end",
+             "    def self.mk%d" % k, "      2", "    end", "  end"]
+    if depth == 2:
+        lines += ["  class Mid%d < Root%d" % (k, k), "    def mid%d" % k, "      1.5", "    end", "  end"]
+    lines += ["  class Node%d < %s%d" % (k, "Mid" if depth == 2 else "Root", k), "    def own_a%d" % k, "      1", "    end", "  end", "end",
+              "module Cq%db" % k, "  class NODE < Cq%da::Node%d" % (k, k), "    def own_b%d" % k, "      's'", "    end", "  end", "end",
+              "xq = Cq%db::NODE.new" % k, "dbtp xq.lbl%d" % k, "dbtp xq.own_a%d" % k, "dbtp xq.own_b%d" % k, "dbtp Cq%db::NODE.mk%d" % (k, k)]
+    if depth == 2:
+        lines.append("dbtp xq.mid%d" % k)
+    lines += ["xq.nope%d" % k, "yq = Cq%da::Node%d.new" % (k, k), "yq.own_b%d" % k, "dbtp yq.lbl%d" % k]
+    text = "\n".join(lines) + "\n"
+    other = "Leaf%d" % k
+    return text.replace("NODE", "Node%d" % k), text.replace("NODE", other), other
+
+
+def run_samename(ctx, n, tag):
+    rng = ctx.rng
+    wd = common.make_workdir(ctx, "sn" + tag)
+    cases = [samename_case(rng, k) for k in range(n)]
+
+    def one(iv):
+        k, (same, ctl, other) = iv
+        meta.write(wd, "sn%d.rb" % k, same)
+        meta.write(wd, "sc%d.rb" % k, ctl)
+        return meta.outputs(ctx, wd, "sn%d.rb" % k, [[]]), meta.outputs(ctx, wd, "sc%d.rb" % k, [[]])
+
+    failures = []
+    for (k, (same, ctl, other)), (a, b) in zip(enumerate(cases), common.pmap(one, list(enumerate(cases)))):
+        if meta.unusable(a) or meta.unusable(b):
+            continue
+        sa = a[0][1].replace("sn%d.rb" % k, "F")
+        sb = b[0][1].replace("sc%d.rb" % k, "F").replace(other, "Node%d" % k)
+        if sa != sb:
+            failures.append({"kind": "same-short-name-in-chain", "program": same, "control_program": ctl, "output": sa, "control_output": sb, "key": ["samename", sa[:60]]})
+    lay = ctx.cov["layers"].setdefault("e2e-samename-chain", {"runs": 0, "distinct_nontrivial": 0})
+    lay["runs"] += 2 * len(cases)
+    lay["distinct_nontrivial"] += len(cases)
+    return failures
+
+
 def gen_findns(rng):
     segs = ["A", "B", "C", "Api", "V1"]
     depth = rng.randint(0, 4)
@@ -171,14 +215,16 @@ def gen_findns(rng):
 def run(ctx):
     common.build_ti(ctx)
     common.build_godrv(ctx)
-    proof_ok = common.prove(ctx)
+    proof_ok = common.prove(ctx, extra_modules=["RubyTi.Props.C16"])
+    from . import C16
     dis = common.run_stream(ctx, "findns", [gen_findns(ctx.rng) for _ in range(ctx.pick(4000, 40000))])
-    failures = run_e2e(ctx, ctx.pick(90, 900), "a")
+    dis_lookup = common.run_stream(ctx, "lookup", [C16.gen_lookup(ctx.rng) for _ in range(ctx.pick(12000, 120000))])
+    failures = run_e2e(ctx, ctx.pick(90, 900), "a") + run_samename(ctx, ctx.pick(30, 300), "a")
 
     def search():
-        return run_e2e(ctx, 250, "s")
+        return run_e2e(ctx, 250, "s") + run_samename(ctx, 60, "s")
 
-    common.conclude(ctx, proof_ok, {"findns": dis}, failures, search)
+    common.conclude(ctx, proof_ok, {"findns": dis, "lookup": dis_lookup}, failures, search)
     evidence(ctx)
 
 
